@@ -45,6 +45,11 @@ def run_cases(cases, servertype):
             def __init__(self, k):
                 self.k = k
 
+            def request_annotations(self):
+                # an ordinary call: which annotations came with it
+                from Pyro5 import api
+                return sorted(api.current_context.annotations)
+
             def handle(self, blob):
                 case = state["case"]
                 hops = case["hops"]
@@ -89,6 +94,7 @@ def run_cases(cases, servertype):
             state["case"] = case
             state["nodes"] = []
             outcome = "ok"
+            later = []
             try:
                 with P.Proxy(state["uris"][1]) as p:
                     p._pyroSerializer = case["hops"][0]["ser"]
@@ -99,12 +105,15 @@ def run_cases(cases, servertype):
                         config.COMPRESSION = False
                     if r != "done":
                         outcome = "other"
+                    # an ordinary call afterwards, from the same thread: the blob's info belongs to the blob call only
+                    later = p.request_annotations()
             except (S.Hang, S.SchedAbort):
                 raise
             except Exception as x:
                 outcome = "error:%s: %s" % (type(x).__name__, str(x)[:80])
             sc.quiesce()
-            traces.append({"writer": case["writer"], "args": case["args"], "info": case["info"], "hops": case["hops"], "peek": case["peek"],
+            traces.append({"later_clean": outcome.split(":")[0] != "ok" or "BLBI" not in later,
+                           "writer": case["writer"], "args": case["args"], "info": case["info"], "hops": case["hops"], "peek": case["peek"],
                            "outcome": outcome.split(":")[0], "detail": outcome, "nodes": list(state["nodes"]), "server": servertype,
                            "concrete": repr(concrete)})
         drv.shutdown()
